@@ -123,15 +123,21 @@ pub fn run_case(spec: &MbSpec, case: &ScCase, st: &mut Stats) -> Result<(), Viol
     let mut probing = false;
     // a discrepancy nobody owns abandons the case - but inside a (read-only) probe battery the
     // remaining probes are still asked first, so that an owned symptom of the same divergence
-    // (e.g. LIST / LUSERS after a NAMES mismatch) is not missed
+    // (e.g. LIST / LUSERS after a NAMES mismatch) is not missed.  The same holds for an operation
+    // of the history itself: the battery that follows it is still asked (and judged for what this
+    // property owns - the symptom is real whoever owns its cause), then the case ends.
     let mut foreign_pending = false;
+    let mut in_history = false;
     macro_rules! step {
         ($out:expr) => {{
             let mut out = $out;
             out.ctx = ctx.clone();
             out.is_probe = probing;
             if !handle(spec, &eng, &out, st, &mut trace)? {
-                if probing {
+                if probing || (in_history && spec.probe_level > 0) {
+                    if !probing {
+                        st.count("foreign_then_probed");
+                    }
                     foreign_pending = true;
                 } else {
                     finish(spec, &trace, st, &b);
@@ -222,13 +228,21 @@ pub fn run_case(spec: &MbSpec, case: &ScCase, st: &mut Stats) -> Result<(), Viol
         }
         let outs = apply_op(&mut eng, &op);
         let mut kept = vec![];
+        in_history = true;
         for o in outs {
             kept.push(step!(o));
         }
+        in_history = false;
         if let Some(x) = spec.extra {
-            x(&mut eng, &mut xs, &kept)?;
+            if !foreign_pending {
+                x(&mut eng, &mut xs, &kept)?;
+            }
         }
         if eng.model.died {
+            if foreign_pending {
+                finish(spec, &trace, st, &b);
+                return Ok(());
+            }
             break;
         }
         if spec.probe_level > 0 {
